@@ -173,7 +173,7 @@ def _build_locked(variant, repo, out, cc, cxx, cflags, ldflags, wrappers, quiet)
 
 
 # Sources that make up the thin threaded TSan driver (no libc wrappers).
-TSAN_SOURCES = {"util.cc", "plan.cc", "archive.cc", "tsan_main.cc"}
+TSAN_SOURCES = {"util.cc", "plan.cc", "archive.cc", "gen.cc", "tsan_main.cc"}
 TSAN_ONLY = {"tsan_main.cc"}
 
 if __name__ == "__main__":
